@@ -42,6 +42,8 @@ class Module:
         self.star_imports: list[str] = []
         self.assigns: dict[str, list[ast.stmt]] = {}
         self._index()
+        self.raw_funcs = self.funcs
+        self._canonicalise()
 
     def _index(self):
         for n in ast.walk(self.tree):
@@ -93,6 +95,26 @@ class Module:
             elif isinstance(st, ast.AnnAssign) and isinstance(st.target, ast.Name):
                 self.assigns.setdefault(st.target.id, []).append(st)
 
+    def _canonicalise(self):
+        """Present every function of the hand-written modules in canonical form: helpers that did not exist when the
+        rules were written are expanded at their call sites (sa/inline.py) and disappear as functions of their own."""
+        from .corefuncs import CORE_FUNCS
+        if self.name not in CORE_FUNCS:
+            return
+        from .inline import canonical_function
+        self.absorbed = set()
+        canon = {}
+        for q, f in self.raw_funcs.items():
+            if isinstance(f, (ast.FunctionDef, ast.AsyncFunctionDef)):
+                c = canonical_function(self, f)
+                canon[q] = c
+                for h in getattr(c, "inlined_helpers", []) or []:
+                    self.absorbed.add(h)
+            else:
+                canon[q] = f
+        core = CORE_FUNCS[self.name]
+        self.funcs = {q: f for q, f in canon.items() if not (q not in core and q.split(".")[-1] in self.absorbed)}
+
     def func(self, qual: str) -> ast.FunctionDef:
         if qual not in self.funcs:
             raise AnalysisError(f"anchor vanished: function {self.name}.{qual}")
@@ -101,8 +123,7 @@ class Module:
     def anchor(self, qual: str) -> ast.FunctionDef:
         """The function *qual* with same-module helper calls expanded in place
         (robust against 'extract helper' refactorings); see sa/inline.py."""
-        from .inline import canonical_function
-        return canonical_function(self, self.func(qual))
+        return self.func(qual)
 
     def cls(self, name: str) -> ast.ClassDef:
         if name not in self.classes:
